@@ -53,6 +53,7 @@ def check_case(case: dict, tier: str, seed: int, verbose: bool = False) -> dict:
     grammar = all_grammars()[name]
     out = {"g": name, "fam": case["fam"], "feat": case["feat"], "c": text, "stages": []}
     say = print if verbose else (lambda *a, **k: None)
+    t_start = time.time()
     try:
         with watchdog(CASE_TIMEOUT[tier]):
             f, err = parse(text, grammar)
@@ -114,6 +115,7 @@ def check_case(case: dict, tier: str, seed: int, verbose: bool = False) -> dict:
                 )
                 say(f"evaluate differs on tree {diff[1]!r}: {diff[2]} vs {diff[3]}")
             out["status"] = "violation" if out["stages"] else "ok"
+            out["dt"] = round(time.time() - t_start, 2)
             if not out["stages"]:
                 say(f"round trip holds; verdicts on {len(picks)} trees: {counts}")
             return out
